@@ -483,7 +483,11 @@ func NewConfigManager(hostKey types.PrivateKey, store Store, cm ChainManager, s 
 	m.settings = settings
 	// update the global rate limiters from settings
 	m.setRateLimit(settings.IngressLimit, settings.EgressLimit)
-	// initialize the DDNS update timer
+	// initialize the DDNS update timer. The timer fires at once and its callback
+	// resets m.ddnsUpdateTimer when the update attempt is over: hold the mutex
+	// (the attempt starts by taking it) until the field has been assigned.
+	m.mu.Lock()
 	m.resetDDNS()
+	m.mu.Unlock()
 	return m, nil
 }
